@@ -503,10 +503,18 @@ pub fn c10_process_world(ctx: &Ctx, scn: &crate::props::c10::Scn, sc: &Scale, ex
             }
         }
     }
-    base_args.push("-a".into());
-    base_args.push(format!("{}", scn.cfg.area));
-    base_args.push("-k".into());
-    base_args.push(format!("{}", scn.cfg.k_exp));
+    // when the file declares the area / k_exp as metadata, every other such run lets the CLI take them from
+    // there (what is declared in the file is part of the evaluation); decided by the data, not by a PRNG
+    let has_meta = |k: &str| scn.base.meta.iter().any(|(key, _)| key == k);
+    let from_meta = scn.proc_seeds.first().map(|s| s % 2 == 0).unwrap_or(false);
+    if !(from_meta && has_meta("CTE_AREAREF")) {
+        base_args.push("-a".into());
+        base_args.push(format!("{}", scn.cfg.area));
+    }
+    if !(from_meta && has_meta("CTE_KEXP")) {
+        base_args.push("-k".into());
+        base_args.push(format!("{}", scn.cfg.k_exp));
+    }
     if scn.cfg.load_matching {
         base_args.push("--load_matching".into());
     }
